@@ -147,6 +147,18 @@ def charSearchTarget (S : Segmenter) (buf : Text) (pos : Nat) (cs : CharSearch) 
     let bs := bounds 0 (S.seg pre)
     if bs.contains p then (bs.find? (· > p)) else none
 
+/-- vi `^`: the first cluster of the current line that holds no white space; the end of the line when the line is
+    blank -/
+def firstPrintTarget (S : Segmenter) (U : UData) (buf : Text) (pos : Nat) : Option Nat :=
+  let ls := lineStartOf buf pos
+  match splitAt? buf ls with
+  | none => none
+  | some (_, rest) =>
+    let line := rest.takeWhile (· != '\n')
+    let gs := S.seg line
+    let k := (gs.takeWhile (fun g => g.any U.ws)).length
+    some (ls + offOf gs k)
+
 inductive SpanRes
   | span (a b : Nat)   -- the text to remove / return (a < b)
   | nothing            -- nothing to kill / copy
@@ -203,15 +215,9 @@ def spanOf (S : Segmenter) (U : UData) (buf : Text) (pos : Nat) (mvt : Movement)
           | some t => mk t pos
           | none => .unjudged
     | .viFirstPrint =>
-      -- first non-blank cluster of the current line
-      match splitAt? buf ls with
+      match firstPrintTarget S U buf pos with
       | none => .unjudged
-      | some (_, rest) =>
-        let line := rest.takeWhile (· != '\n')
-        let gs := S.seg line
-        let k := (gs.takeWhile (fun g => g.any U.ws)).length
-        let fp := ls + offOf gs k
-        if fp < pos then .span fp pos else if pos < fp then .span pos fp else .nothing
+      | some fp => if fp < pos then .span fp pos else if pos < fp then .span pos fp else .nothing
     | .backwardChar n =>
       if n == 0 then .unjudged
       else match charTargetBwd S buf pos n with
@@ -455,6 +461,7 @@ def c04Step (S : Segmenter) (U : UData) (old : LB) (op : Op) (o : Outcome) : Opt
       | .moveBufferStart => checkPos (some 0) old pos
       | .moveBufferEnd => checkPos (some (blen b)) old pos
       | .moveHome => checkPos (some (lineStartOf b p)) old pos
+      | .moveToFirstPrint => checkPos (firstPrintTarget S U b p) old pos
       | .moveEnd => checkPos (some (lineEndOf b p)) old pos
       | .moveToPrevWord d n => if n == 0 then none else checkPos (wordTargetBwd S U b p d n) old pos
       | .moveToNextWord a d n =>
